@@ -162,12 +162,22 @@ def check_case(run, case, use_cli=False):
         changed = sorted(k for k in set(before) | set(after_tgt) if before.get(k) != after_tgt.get(k) and k != g)
         if changed:
             run.violation(f'edit_rules touched files other than Grammar/grammar.txt: {changed[:5]}', case, observed=changed); return
+        # the audit log adds what a before/after snapshot cannot see: a file of some ruleset that was written / removed / renamed and restored, or a write into
+        # another ruleset.  Scratch files the tool creates for itself (and removes again) are not "another file touched": only paths under Rules/ that existed
+        # before the run, or that belong to a ruleset other than the target, count.
+        tgt = os.path.abspath(target) + os.sep
+        rules_root = os.path.abspath(rules_dir) + os.sep
         for kind, p in log:
             ap = os.path.abspath(p)
-            if kind == 'open-write' and not ap.startswith(os.path.abspath(target) + os.sep) or (kind == 'open-write' and not case['copy'] and ap != os.path.join(os.path.abspath(target), g)):
-                run.violation(f'edit_rules opened {ap} for writing', case, observed=log[:8]); return
-            if kind in ('os.remove', 'os.unlink', 'os.rename', 'shutil.rmtree', 'os.rmdir', 'os.truncate'):
-                run.violation(f'edit_rules performed {kind} on {ap}', case, observed=log[:8]); return
+            if not ap.startswith(rules_root) or kind in ('shutil.copytree', 'shutil.copyfile', 'os.mkdir'):
+                continue
+            inside = ap.startswith(tgt)
+            rel = os.path.relpath(ap, os.path.abspath(target)) if inside else None
+            if inside and case['copy']:
+                continue                      # the copy itself is being created: every file of it is written
+            existed = inside and (rel in before)
+            if (not inside) or (existed and rel != g):
+                run.violation(f'edit_rules performed {kind} on {ap}' + ('' if inside else ' (outside the ruleset being edited)'), case, observed=log[:8]); return
         # ---- the new list is the filtered old list
         new_bytes = open(os.path.join(target, g), 'rb').read()
         new_lines = oracles.read_rows(os.path.join(target, g), 'ascii')
